@@ -833,8 +833,9 @@ func evalMemberMethodExpr(vm *r.VM, expr *syntax.MemberMethodExpr) (r.Element, e
 			return nil, err
 		}
 
-		// bind yield result (a constant, like the 得到 name of a direct call)
-		if err := vm.DeclareConstElement(vtag, vlast); err != nil {
+		// bind yield result (a constant, like the 得到 name of a direct call);
+		// the name holds a copy, as a name declared with 令 does
+		if err := vm.DeclareConstElement(vtag, value.DuplicateValue(vlast)); err != nil {
 			return nil, err
 		}
 	}
